@@ -12,18 +12,19 @@ import (
 const rns = "resource-policy.nri.io"
 
 type genState struct {
-	r       *verifrt.Rand
-	m       *machine.Machine
-	prop    string
-	faults  bool
-	policy  string
-	pods    []*PodSpec
-	podLive map[string]bool
-	ctrs    []*CtrSpec
-	ctrSt   map[string]string // creating created running stopped removed
-	npod    int
-	nctr    int
-	nodeMem int64
+	r        *verifrt.Rand
+	m        *machine.Machine
+	prop     string
+	faults   bool
+	policy   string
+	pods     []*PodSpec
+	podLive  map[string]bool
+	ctrs     []*CtrSpec
+	ctrSt    map[string]string // creating created running stopped removed
+	npod     int
+	nctr     int
+	nodeMem  int64
+	memHeavy bool // this run sizes memory limits around node capacities (zone widening)
 }
 
 func boolp(b bool) *bool { return &b }
@@ -292,7 +293,7 @@ func (g *genState) memChoice() int64 {
 	if base <= 0 {
 		base = 1 << 30
 	}
-	heavy := g.prop == "C04" || g.prop == "C09" || g.prop == "C11"
+	heavy := g.prop == "C04" || g.prop == "C09" || g.prop == "C11" || g.memHeavy
 	switch r.Intn(8) {
 	case 0:
 		return 64 << 20
@@ -344,7 +345,7 @@ func genPlan(prop, tier string, seed uint64, faults bool) *Plan {
 		mo.MaxCPUs = 32
 	}
 	// offline CPUs: only where discovery itself is the subject
-	mo.AllowOffline = prop == "C16"
+	mo.AllowOffline = prop == "C16" || prop == "C08"
 	m := machine.Generate(verifrt.NewRand(verifrt.Mix(seed, "machine")), mo)
 	p := &Plan{Policy: pol, Machine: m, Order: int(verifrt.OrderSeeded)}
 	if r.Chance(0.15) {
@@ -361,6 +362,7 @@ func genPlan(prop, tier string, seed uint64, faults bool) *Plan {
 			g.nodeMem = int64(n.MemKB) * 1024
 		}
 	}
+	g.memHeavy = prop == "C12" && r.Chance(0.4) // opted-out containers next to memory-zone widening
 	nops := r.Range(20, 80)
 	if tier == "quick" {
 		nops = r.Range(15, 50)
